@@ -6,6 +6,8 @@ import DendroModel.Theory.Laminar
 import DendroModel.Theory.Lsb
 import DendroModel.Theory.C01Bridge
 import DendroModel.Theory.C01Reseed
+import DendroModel.Theory.C01Sort
+import DendroModel.Theory.C01Small
 /-! C01 — property theorems.  Obligations are the theorems directly in `namespace DendroModel.C01`;
 helpers live in `DendroModel.C01.Aux`.  The statements about `PyBits.*` are about definitions regenerated
 from the current source on every run. -/
@@ -1144,6 +1146,179 @@ theorem rebuild_unrooted_topology (sup col : Bool) (t : T) (all : Nat) (members 
       obtain ⟨e1, e2⟩ := helem y h1
       rw [norm_of_avoid _ _ _ e1 e2]; exact h1
 
+end DendroModel.C01
+
+namespace DendroModel.C01.Aux
+open DendroModel DendroModel.Hier DendroModel.C01
+
+/-- facts about the list of split masks of an unrooted encoding, as handed to `build` (no assumption on the namespace beyond
+    `all ⊇` the tree's leafset): every mask lies inside the leafset and avoids the lowest taxon; the unrooted head filter keeps
+    exactly those with ≥ 2 taxa other than the all-bits mask; they are pairwise laminar -/
+theorem unrooted_ss_facts (sup col : Bool) (t : T) (all : Nat) (ss : List Nat)
+    (hg : Good (T.toH t)) (h3 : Bridge.ThreeTaxa t.mask) (hall : bits t.mask ⊆ bits all)
+    (k : Nat) (hk : Lsb.lsb t.mask = 1 <<< k)
+    (hss : ∀ x : Nat, x ∈ ss ↔ (x : Int) ∈ (encode (some false) sup col t).map (·.2)) :
+    (∀ x, x ∈ ss → bits x ⊆ bits t.mask ∧ k ∉ bits x) ∧
+    (∀ x, x ∈ ss.filterMap (prep all false) ↔ (x ∈ ss ∧ x ≠ all ∧ ¬ (bits x).Subsingleton)) ∧
+    (∀ x ∈ ss, ∀ y ∈ ss, Lam x y) ∧ (0 ∈ ss) ∧ (Hier.sdiff t.mask (1 <<< k) ∈ ss) := by
+  have h0 : t.mask ≠ 0 := threeTaxa_ne_zero h3
+  have hkL : k ∈ bits t.mask := lsb_index_mem _ _ h0 hk
+  have hlow : ∀ j, j < k → j ∉ bits t.mask := by
+    obtain ⟨k', hk', _, hl⟩ := lsb_spec t.mask (by omega)
+    have : k' = k := shift_inj (hk'.symm.trans hk)
+    subst this
+    intro j hj hjm; have := hl j hj; rw [hjm] at this; exact Bool.noConfusion this
+  have hmT0 : Hier.mask (Hier.sup (T.toH t)) = t.mask := by rw [sup_mask, toH_mask]
+  obtain ⟨c1, c2, c3, c4, c5⟩ := canonU_is_canonical k t hg h3 hkL
+  obtain ⟨cs, hC, hkcs, h3cs⟩ := c3
+  rw [hC] at c1 c4 c5
+  simp only [Good] at c1
+  simp only [Hier.mask] at c4
+  -- the list handed over is, as a set, {0} ∪ usplits of the canonical form
+  have hssU : ∀ x, x ∈ ss ↔ (x = 0 ∨ x ∈ usplits (1 <<< k) (.node cs)) := by
+    intro x
+    rw [hss x, mem_encode_unrooted_of sup col t hg h0 k hk (Hier.sup (T.toH t)) hmT0 (fun m => by rw [sup_clades, toH_clades])]
+    constructor
+    · rintro ⟨y, hy, hyu⟩
+      have : y = x := by exact_mod_cast hy
+      subst this; exact hyu.imp id (fun h => (c5 y).mpr h)
+    · intro hx; exact ⟨x, rfl, hx.imp id (fun h => (c5 x).mp h)⟩
+  -- every member of it lies inside the leafset and avoids the lowest leaf
+  have helem : ∀ x, x ∈ ss → bits x ⊆ bits t.mask ∧ k ∉ bits x := by
+    intro x hx
+    rcases (hssU x).mp hx with rfl | hx
+    · simp [bits_zero]
+    · rcases (usplits_canon c1 hkcs x).mp hx with rfl | ⟨c, hc, hck, hxc⟩
+      · rw [bits_sdiff, bits_shift, c4]
+        exact ⟨Set.sdiff_subset, fun h => h.2 rfl⟩
+      · obtain ⟨o1, o2, o3⟩ := other_child_clades c1 hkcs hc hck hxc
+        exact ⟨by rw [← c4]; exact o2.trans o3, o1⟩
+  have h0bit : ∀ x, x ∈ ss → 0 ∉ bits x := by
+    intro x hx h0x
+    obtain ⟨e1, e2⟩ := helem x hx
+    have : k = 0 := by
+      by_contra hne
+      exact hlow 0 (by omega) (e1 h0x)
+    rw [this] at e2; exact e2 h0x
+  have hfs : ∀ x, x ∈ ss.filterMap (prep all false) ↔ (x ∈ ss ∧ x ≠ all ∧ ¬ (bits x).Subsingleton) := by
+    intro x
+    rw [List.mem_filterMap]
+    constructor
+    · rintro ⟨s, hs, hp⟩
+      rw [prep_unrooted_of_avoid0 all s (h0bit s hs), Bridge.prep_rooted_of_sub all s ((helem s hs).1.trans hall)] at hp
+      split at hp
+      · rename_i hc
+        simp only [Option.some.injEq] at hp; subst hp
+        exact ⟨hs, hc.1, by rw [← pred_and_zero_iff]; exact hc.2⟩
+      · simp at hp
+    · rintro ⟨hx, h1, h2⟩
+      refine ⟨x, hx, ?_⟩
+      rw [prep_unrooted_of_avoid0 all x (h0bit x hx), Bridge.prep_rooted_of_sub all x ((helem x hx).1.trans hall),
+        if_pos ⟨h1, by rw [Ne, pred_and_zero_iff]; exact h2⟩]
+  -- pairwise laminar: clades of one tree, or "everything but the lowest leaf", which contains all the others
+  have hlamss : ∀ x ∈ ss, ∀ y ∈ ss, Lam x y := by
+    intro x hx y hy
+    have hxe := helem x hx
+    have hye := helem y hy
+    have big : ∀ z, z ∈ ss → bits z ⊆ bits (Hier.sdiff (maskL cs) (1 <<< k)) := by
+      intro z hz
+      rw [bits_sdiff, bits_shift, c4]
+      intro i hi
+      exact ⟨(helem z hz).1 hi, fun h => (helem z hz).2 (by rw [Set.mem_singleton_iff] at h; rw [← h]; exact hi)⟩
+    rcases (hssU x).mp hx with rfl | hxu
+    · exact lam_of_disj (by rw [bits_zero]; exact Set.disjoint_empty _)
+    rcases (hssU y).mp hy with rfl | hyu
+    · exact lam_of_sub (by rw [bits_zero]; exact Set.empty_subset _)
+    rcases (usplits_canon c1 hkcs x).mp hxu with rfl | ⟨cx, hcx, _, hxc⟩
+    · exact lam_of_sub (big y hy)
+    rcases (usplits_canon c1 hkcs y).mp hyu with rfl | ⟨cy, hcy, _, hyc⟩
+    · exact lam_of_sub' (big x hx)
+    · exact cladesL_laminar cs c1 x ((mem_cladesL _ _).mpr ⟨cx, hcx, hxc⟩) y ((mem_cladesL _ _).mpr ⟨cy, hcy, hyc⟩)
+  refine ⟨helem, hfs, hlamss, (hssU 0).mpr (Or.inl rfl), ?_⟩
+  rw [← c4]; exact (hssU _).mpr (Or.inr ((usplits_canon c1 hkcs _).mpr (Or.inl rfl)))
+
+end DendroModel.C01.Aux
+
+namespace DendroModel.C01
+open DendroModel DendroModel.Hier DendroModel.C01.Aux
+
+/-- **unrooted rebuild over a namespace with extra members** (mirrors `rebuild_rooted_extras`): when the members include the
+    tree's ≥ 3 taxa and at least one taxon that is not on the tree, the tree `build` makes of the split masks of the unrooted
+    encoding, in any order and multiplicity, is well formed, unifurcation-free, over all members, and its clades are exactly:
+    all members together, each member alone, and every non-empty split mask of the encoding — among them `L ∖ {k}`, the
+    normalised split of the lowest leaf's own edge, so the tree's taxa other than `k` stay together and the absent members sit
+    with leaf `k` at the root (on the lowest leaf's edge of the unrooted source).
+    (`_partial` only in this sense: the clade set pins the tree down up to child order — `clades_injective`, the result being
+    `Good` and `NoUnif` — but the explicit `Iso` to a reference tree built from `canonU` is not spelled out.) -/
+theorem rebuild_unrooted_extras_partial (sup col : Bool) (t : T) (all : Nat) (members ss : List Nat)
+    (hg : Good (T.toH t)) (h3 : Bridge.ThreeTaxa t.mask) (hm : members.Nodup)
+    (hsub : bits t.mask ⊆ bits (maskL (members.map Hier.T.leaf))) (hall : bits (maskL (members.map Hier.T.leaf)) ⊆ bits all)
+    (k : Nat) (hk : Lsb.lsb t.mask = 1 <<< k)
+    (hss : ∀ x : Nat, x ∈ ss ↔ (x : Int) ∈ (encode (some false) sup col t).map (·.2)) :
+    Good (build all members false ss) ∧ NoUnif (build all members false ss) ∧
+      Hier.mask (build all members false ss) = maskL (members.map Hier.T.leaf) ∧
+      (∀ x, x ∈ clades (build all members false ss) ↔
+        x = maskL (members.map Hier.T.leaf) ∨ (∃ b ∈ members, x = 1 <<< b) ∨ (x ≠ 0 ∧ x ∈ ss)) ∧
+      Hier.sdiff t.mask (1 <<< k) ∈ clades (build all members false ss) := by
+  have h0 : t.mask ≠ 0 := threeTaxa_ne_zero h3
+  have hkL : k ∈ bits t.mask := lsb_index_mem _ _ h0 hk
+  obtain ⟨helem, hfs, hlamss, _, hcompl⟩ := unrooted_ss_facts sup col t all ss hg h3 (hsub.trans hall) k hk hss
+  have hmemM : ∀ b, b ∈ bits (maskL (members.map Hier.T.leaf)) ↔ b ∈ members := by
+    intro b; rw [Bridge.bits_maskL_leaves]; rfl
+  obtain ⟨hgb, hmb, hcl⟩ := build_clades_general all members false ss hm
+    (by
+      intro s hs
+      obtain ⟨h1, _, h2⟩ := (hfs s).mp hs
+      refine ⟨?_, (helem s h1).1.trans hsub⟩
+      intro hz; apply h2; rw [hz, bits_zero]; exact Set.subsingleton_empty)
+    (by
+      intro s hs b hb
+      exact hlamss s ((hfs s).mp hs).1 b ((hfs b).mp hb).1)
+  have hne : members ≠ [] := by
+    intro he
+    have : k ∈ members := (hmemM k).mp (hsub hkL)
+    rw [he] at this; cases this
+  have hclades : ∀ x, x ∈ clades (build all members false ss) ↔
+      x = maskL (members.map Hier.T.leaf) ∨ (∃ b ∈ members, x = 1 <<< b) ∨ (x ≠ 0 ∧ x ∈ ss) := by
+    intro x
+    rw [hcl x]
+    constructor
+    · rintro ((h | h) | h)
+      · exact Or.inl h
+      · exact Or.inr (Or.inl h)
+      · obtain ⟨h1, _, h2⟩ := (hfs x).mp h
+        refine Or.inr (Or.inr ⟨?_, h1⟩)
+        intro hz; apply h2; rw [hz, bits_zero]; exact Set.subsingleton_empty
+    · rintro (h | h | ⟨hx0, hx⟩)
+      · exact Or.inl (Or.inl h)
+      · exact Or.inl (Or.inr h)
+      · obtain ⟨e1, e2⟩ := helem x hx
+        have hxa : x ≠ all := by
+          intro h; rw [h] at e2; exact e2 (hall (hsub hkL))
+        by_cases hsing : (bits x).Subsingleton
+        · left; right
+          obtain ⟨i, hi⟩ := ne_zero_bits hx0
+          refine ⟨i, (hmemM i).mp (hsub (e1 hi)), ?_⟩
+          apply bits_inj; rw [bits_shift]
+          ext j; constructor
+          · intro hj; exact hsing hj hi
+          · intro hj; rw [Set.mem_singleton_iff] at hj; subst hj; exact hi
+        · exact Or.inr ((hfs x).mpr ⟨hx, hxa, hsing⟩)
+  refine ⟨hgb, Bridge.build_noUnif all members false ss hne, hmb, hclades, ?_⟩
+  rw [hclades]
+  refine Or.inr (Or.inr ⟨?_, hcompl⟩)
+  -- L ∖ {k} is not empty: there are three taxa
+  obtain ⟨a, b, c, ha, hb, hc, hab, hac, hbc⟩ := h3
+  intro hz
+  have hmem : ∀ y, y ∈ bits t.mask → y ≠ k → False := by
+    intro y hy hyk
+    have : y ∈ bits (Hier.sdiff t.mask (1 <<< k)) := by
+      rw [bits_sdiff, bits_shift]; exact ⟨hy, fun h => hyk h⟩
+    rw [hz, bits_zero] at this; exact this
+  by_cases hak : a = k
+  · exact hmem b hb (fun h => hab (hak.trans h.symm))
+  · exact hmem a ha hak
+
 /-! ### (e) `Tree.is_compatible_with_bipartition` as a statement over all edges -/
 
 end DendroModel.C01
@@ -1487,6 +1662,97 @@ theorem rebuild_rooted_extras (sup col : Bool) (t : T) (all : Nat) (members ss :
       · exact Or.inr (Or.inr ⟨b, (hexmem b).mpr ⟨hb, hbt⟩, rfl⟩)
     · exact Or.inr (Or.inl h)
 
+/-! ### last round: the driver's canonical unrooted tree `ucanonT` decides "same unrooted topology" -/
+
+/-- `ucanonT` (what op `ucanon2` prints, structurally: re-seed at the lowest leaf, order children by mask) is a complete
+    invariant: for two well-formed trees over the same ≥ 3 taxa, the two canonical trees are EQUAL iff the re-seeded trees are
+    `Iso` (`Bridge.csort_iso`: `csort` does not see child order — via a matching of partners and uniqueness of a sorted
+    permutation on distinct masks; `Bridge.iso_of_csort_eq`: `csort` keeps the clade set).  What stays trusted is only that
+    the structural printer `Hier.render` is injective. -/
+theorem ucanonT_eq_iff_iso (t u : T) (hgt : Good (T.toH t)) (hgu : Good (T.toH u)) (hL : t.mask = u.mask)
+    (h3 : Bridge.ThreeTaxa t.mask) :
+    ucanonT t = ucanonT u ↔
+      Iso (canonU (lowIdx t.mask) (Hier.sup (T.toH t))) (canonU (lowIdx t.mask) (Hier.sup (T.toH u))) := by
+  have h0 : t.mask ≠ 0 := threeTaxa_ne_zero h3
+  have hk := lowIdx_spec t.mask h0
+  have hkL := lsb_index_mem _ _ h0 hk
+  have hmt : Hier.mask (Hier.sup (T.toH t)) = t.mask := by rw [sup_mask, toH_mask]
+  have hmu : Hier.mask (Hier.sup (T.toH u)) = t.mask := by rw [sup_mask, toH_mask, hL]
+  obtain ⟨a1, a2, _, a4, _⟩ := canonU_is_canonical (lowIdx t.mask) t hgt h3 hkL
+  obtain ⟨b1, b2, _, b4, _⟩ := canonU_is_canonical (lowIdx t.mask) u hgu (by rw [← hL]; exact h3) (by rw [← hL]; exact hkL)
+  unfold ucanonT
+  simp only [hmt, hmu]
+  exact Bridge.csort_eq_iff_iso _ _ a1 b1 (by rw [a4]; exact h0) (by rw [b4, ← hL]; exact h0) a2 b2
+
+/-- … hence the clause of the statement in the driver's own terms: two well-formed unrooted trees over the same ≥ 3 taxa have
+    equal sets of split masks (any flags) iff the driver computes the same canonical tree for both -/
+theorem ucanonT_eq_iff_same_splits (s c s' c' : Bool) (t u : T) (hgt : Good (T.toH t)) (hgu : Good (T.toH u))
+    (hL : t.mask = u.mask) (h3 : Bridge.ThreeTaxa t.mask) :
+    ucanonT t = ucanonT u ↔
+      ∀ z : Int, z ∈ (encode (some false) s c t).map (·.2) ↔ z ∈ (encode (some false) s' c' u).map (·.2) := by
+  rw [ucanonT_eq_iff_iso t u hgt hgu hL h3]
+  exact (encode_unrooted_iff_topology s c s' c' t u hgt hgu hL h3 (lowIdx t.mask)
+    (lowIdx_spec t.mask (threeTaxa_ne_zero h3))).symm
+
+/-- the order-free STRING of op `ucanon` is an invariant too: same unrooted topology ⇒ same string (`Bridge.renderSorted_iso`:
+    insertion sort of the children's strings is permutation-invariant).  The converse for strings — that `renderSorted` is
+    injective up to `Iso` — is not proved; the complete invariant is the tree `ucanonT` (`ucanonT_eq_iff_iso`). -/
+theorem ucanon_eq_of_iso (t u : T) (hgt : Good (T.toH t)) (hgu : Good (T.toH u)) (hL : t.mask = u.mask)
+    (h3 : Bridge.ThreeTaxa t.mask)
+    (h : Iso (canonU (lowIdx t.mask) (Hier.sup (T.toH t))) (canonU (lowIdx t.mask) (Hier.sup (T.toH u)))) :
+    ucanon t = ucanon u := by
+  have h0 : t.mask ≠ 0 := threeTaxa_ne_zero h3
+  have hkL := lsb_index_mem _ _ h0 (lowIdx_spec t.mask h0)
+  have hmt : Hier.mask (Hier.sup (T.toH t)) = t.mask := by rw [sup_mask, toH_mask]
+  have hmu : Hier.mask (Hier.sup (T.toH u)) = t.mask := by rw [sup_mask, toH_mask, hL]
+  obtain ⟨a1, _⟩ := canonU_is_canonical (lowIdx t.mask) t hgt h3 hkL
+  obtain ⟨b1, _⟩ := canonU_is_canonical (lowIdx t.mask) u hgu (by rw [← hL]; exact h3) (by rw [← hL]; exact hkL)
+  unfold ucanon
+  simp only [hmt, hmu]
+  exact Bridge.renderSorted_iso _ _ h a1 b1
+
+/-- `encode_unrooted_iff_topology` without the ≥ 3 taxa hypothesis: with one or two taxa a well-formed tree is, once
+    unifurcations are suppressed, a single leaf or a cherry (`Bridge.small_shape`), `canonU` is the identity on it, there is one
+    topology per leaf set (`Bridge.small_iso`) and both sides of the iff hold -/
+theorem encode_unrooted_iff_topology_all (s c s' c' : Bool) (t u : T) (hgt : Good (T.toH t)) (hgu : Good (T.toH u))
+    (hL : t.mask = u.mask) (h0 : t.mask ≠ 0) (k : Nat) (hk : Lsb.lsb t.mask = 1 <<< k) :
+    (∀ z : Int, z ∈ (encode (some false) s c t).map (·.2) ↔ z ∈ (encode (some false) s' c' u).map (·.2)) ↔
+      Iso (canonU k (Hier.sup (T.toH t))) (canonU k (Hier.sup (T.toH u))) := by
+  by_cases h3 : Bridge.ThreeTaxa t.mask
+  · exact encode_unrooted_iff_topology s c s' c' t u hgt hgu hL h3 k hk
+  · have h0u : u.mask ≠ 0 := by rw [← hL]; exact h0
+    have hmt : Hier.mask (Hier.sup (T.toH t)) = t.mask := by rw [sup_mask, toH_mask]
+    have hmu : Hier.mask (Hier.sup (T.toH u)) = t.mask := by rw [sup_mask, toH_mask, hL]
+    have ht0 : Hier.mask (T.toH t) ≠ 0 := by rw [toH_mask]; exact h0
+    have hu0 : Hier.mask (T.toH u) ≠ 0 := by rw [toH_mask]; exact h0u
+    have hiso := Bridge.small_iso _ _ (sup_good _ hgt) (sup_good _ hgu) (sup_noUnif _ hgt ht0) (sup_noUnif _ hgu hu0)
+      (hmt.trans hmu.symm) (by rw [hmt]; exact h3)
+    rw [Bridge.canonU_small k _ (sup_good _ hgt) (sup_noUnif _ hgt ht0) (by rw [hmt]; exact h3),
+      Bridge.canonU_small k _ (sup_good _ hgu) (sup_noUnif _ hgu hu0) (by rw [hmu]; exact h3)]
+    exact ⟨fun _ => hiso, fun _ z => encode_unrooted_invariant s c s' c' t u hgt h0 hgu h0u hiso z⟩
+
+/-- … and the driver-level form for any number of taxa: equal sets of split masks iff the driver computes the same canonical tree -/
+theorem ucanonT_eq_iff_same_splits_all (s c s' c' : Bool) (t u : T) (hgt : Good (T.toH t)) (hgu : Good (T.toH u))
+    (hL : t.mask = u.mask) (h0 : t.mask ≠ 0) :
+    ucanonT t = ucanonT u ↔
+      ∀ z : Int, z ∈ (encode (some false) s c t).map (·.2) ↔ z ∈ (encode (some false) s' c' u).map (·.2) := by
+  by_cases h3 : Bridge.ThreeTaxa t.mask
+  · exact ucanonT_eq_iff_same_splits s c s' c' t u hgt hgu hL h3
+  · have h0u : u.mask ≠ 0 := by rw [← hL]; exact h0
+    have hmt : Hier.mask (Hier.sup (T.toH t)) = t.mask := by rw [sup_mask, toH_mask]
+    have hmu : Hier.mask (Hier.sup (T.toH u)) = t.mask := by rw [sup_mask, toH_mask, hL]
+    have ht0 : Hier.mask (T.toH t) ≠ 0 := by rw [toH_mask]; exact h0
+    have hu0 : Hier.mask (T.toH u) ≠ 0 := by rw [toH_mask]; exact h0u
+    have hiso := Bridge.small_iso _ _ (sup_good _ hgt) (sup_good _ hgu) (sup_noUnif _ hgt ht0) (sup_noUnif _ hgu hu0)
+      (hmt.trans hmu.symm) (by rw [hmt]; exact h3)
+    have heq : ucanonT t = ucanonT u := by
+      unfold ucanonT
+      simp only [hmt, hmu]
+      rw [Bridge.canonU_small _ _ (sup_good _ hgt) (sup_noUnif _ hgt ht0) (by rw [hmt]; exact h3),
+        Bridge.canonU_small _ _ (sup_good _ hgu) (sup_noUnif _ hgu hu0) (by rw [hmu]; exact h3)]
+      exact Bridge.csort_iso _ _ hiso (sup_good _ hgt) (sup_good _ hgu)
+    exact ⟨fun _ z => encode_unrooted_invariant s c s' c' t u hgt h0 hgu h0u hiso z, fun _ => heq⟩
+
 /-! non-vacuity: the hypotheses are met by concrete trees -/
 example : Good (T.toH (.node 0 none none none [.node 1 (some 0) none none [], .node 2 none none none
     [.node 3 (some 2) none none [], .node 4 (some 3) none none []]])) := by
@@ -1562,6 +1828,20 @@ example : ¬ (bits (T.mask exT)).Subsingleton := by
   have h0 : (0 : Nat) ∈ bits (T.mask exT) := by show Nat.testBit _ _ = true; decide
   have h2 : (2 : Nat) ∈ bits (T.mask exT) := by show Nat.testBit _ _ = true; decide
   exact absurd (h h0 h2) (by decide)
+-- last round.  ucanonT: the two drawings of quartet 01|23 get the SAME tree, quartet 02|13 another one
+example : Hier.render (ucanonT exQ1) = "(0,1,(2,3))" ∧ Hier.render (ucanonT exQ1') = "(0,1,(2,3))"
+    ∧ Hier.render (ucanonT exQ2) = "(0,2,(1,3))" := by decide
+-- …_all on two taxa: (t1,t5) and ((t5),t1) — well formed, same leafset, lowest taxon 1, same canonical tree
+example : Good (T.toH (.node 0 none none none [.node 1 (some 1) none none [], .node 2 (some 5) none none []])) ∧
+    T.mask (.node 0 none none none [.node 1 (some 1) none none [], .node 2 (some 5) none none []]) = 34 ∧ Lsb.lsb 34 = 1 <<< 1 := by
+  refine ⟨by simp [T.toH, T.toHL, Good, GoodL, Hier.mask, Hier.maskL], by decide, by decide⟩
+example : Hier.render (ucanonT (.node 0 none none none [.node 1 (some 1) none none [], .node 2 (some 5) none none []])) = "(1,5)" ∧
+    Hier.render (ucanonT (.node 0 none none none [.node 1 none none none [.node 2 (some 5) none none []], .node 3 (some 1) none none []]))
+      = "(1,5)" := by decide
+-- rebuild_unrooted_extras_partial: exT (taxa 0,2,3) over members 0,1,2,3: the absent member 1 sits with the lowest leaf 0 at the
+-- root, the other taxa L∖{0} = {2,3} = 12 stay together
+example : Hier.render (build 15 [0, 1, 2, 3] false [0, 8, 12, 4, 12]) = "(0,1,(2,3))" := by decide
+example : Hier.sdiff (T.mask exT) (1 <<< 0) = 12 := by decide
 end
 
 end DendroModel.C01
